@@ -2062,11 +2062,22 @@ impl TypeSpace {
         metadata: &Option<Box<Metadata>>,
         validation: &Option<Box<schemars::schema::NumberValidation>>,
         format: &Option<String>,
-    ) -> Result<String> {
-        let (entry, _) = self.convert_integer(metadata, validation, format)?;
-        match entry.details {
-            TypeEntryDetails::Integer(name) => Ok(name),
-            _ => unreachable!(),
+    ) -> std::result::Result<String, ()> {
+        // The entry and the error are leaked rather than dropped: their drop
+        // glue (maps, `serde_json::Value`) dominates a model checker's run.
+        match self.convert_integer(metadata, validation, format) {
+            Ok((entry, _)) => {
+                let name = match &entry.details {
+                    TypeEntryDetails::Integer(name) => name.clone(),
+                    _ => unreachable!(),
+                };
+                std::mem::forget(entry);
+                Ok(name)
+            }
+            Err(e) => {
+                std::mem::forget(e);
+                Err(())
+            }
         }
     }
 
@@ -2076,11 +2087,20 @@ impl TypeSpace {
         metadata: &Option<Box<Metadata>>,
         validation: &Option<Box<schemars::schema::NumberValidation>>,
         format: &Option<String>,
-    ) -> Result<String> {
-        let (entry, _) = self.convert_number(metadata, validation, format)?;
-        match entry.details {
-            TypeEntryDetails::Float(name) => Ok(name),
-            _ => unreachable!(),
+    ) -> std::result::Result<String, ()> {
+        match self.convert_number(metadata, validation, format) {
+            Ok((entry, _)) => {
+                let name = match &entry.details {
+                    TypeEntryDetails::Float(name) => name.clone(),
+                    _ => unreachable!(),
+                };
+                std::mem::forget(entry);
+                Ok(name)
+            }
+            Err(e) => {
+                std::mem::forget(e);
+                Err(())
+            }
         }
     }
 }
